@@ -10,11 +10,16 @@ Obligations
   C  pathutil   real isRelativePattern / Path::isAbsolute / join / getRelativePath == model
   C  accept     real Path::acceptFile / identify / getFilenameExtension == model
   C  lister     real FileLister::recursiveAddFiles on real temporary directory trees == model addFiles
+  C  cli-args   real CmdLineParser::parseFromArgs (mIgnoredPaths, mPathNames, Result) == model parseIgnoreArgs
+  C  cli-e2e    built cppcheck binary, `cppcheck -i <u>… <targets>` inside real trees with the same name on several levels:
+                `Checking <file> ...` lines == model (normalisation + lister + simplifyPath)
 P_impl (evaluated on the implementation, the model only classifies):
   pathmatch     real match(pattern, path, base, mode, syntax) == documented rules (executable spec `pathMatchSpecB`)
   pathiter      real read() == documented canonical form `canon`
   simplify      real simplifyPath is idempotent and equals the canonical form up to its conventions
   lister        real listing == sorted, duplicate-free, exactly { f | accept(f) and not ignoredAlong(real match, f) }
+  cli-args      every -i value reaches the matcher with only quotation marks / native separators normalised
+  cli-e2e       Checking lines == documented rule applied to the patterns AS THE USER WROTE THEM (userIgnoreSpecB)
 Known deviation classes (each has a Lean counterexample theorem and a corpus witness, see docs/C31.md) are keyed;
 anything else is a VIOLATION.
 """
@@ -41,8 +46,11 @@ EXPLANATION = ("Lean theorems (all lengths, both syntaxes, about the repaired co
                "modelled line by line incl. the size_t wrap-around; idempotence and canonical form are REFUTED by counterexample theorems "
                "(known finding C31-5), no positive theorem is proved for it (correspondence only). Tie: in-process correspondence of all "
                "modelled functions, extension tables extracted from lib/path.cpp. Outside the model: windows build branches "
-               "(#ifdef _WIN32), symlinks, stat/opendir failures, DT_UNKNOWN, Emacs marker probing, the callers in "
-               "cmdlineparser.cpp / importproject.cpp / suppressions.cpp.")
+               "(#ifdef _WIN32), symlinks, stat/opendir failures, DT_UNKNOWN, Emacs marker probing. The -i path of the command line is "
+               "inside: parseFromArgs' handling of -i values (argument loop, quotation marks, separators) is modelled, proved to "
+               "preserve the documented rule for the pattern as the user wrote it (cli_ignore_eq_rule, cli_selection_exact), tied "
+               "in-process to the real CmdLineParser and end-to-end to the built binary (Checking lines on real trees). Still "
+               "outside: --file-filter, project imports (importproject.cpp), suppressions.cpp, de-duplication across path names.")
 THEOREMS = [
     "Cppcheck.PathMatch.match_terminates",
     "Cppcheck.PathMatch.pathmatch_eq_spec",
@@ -64,6 +72,9 @@ THEOREMS = [
     "Cppcheck.FileLister.lister_sorted",
     "Cppcheck.FileLister.lister_no_path",
     "Cppcheck.FileLister.lister_missing",
+    "Cppcheck.FileLister.cli_ignore_eq_rule",
+    "Cppcheck.FileLister.cli_selection_exact",
+    "Cppcheck.FileLister.cli_simplifyPath_normalisation_counterexample",
 ]
 MODULES = ["Cppcheck.Props.C31"]
 
@@ -766,6 +777,285 @@ def check_misc(ctx, res, exe, drv, rng, n):
     core.correspond(ctx, res, "pathutil-accept", lines, impl, model, nontrivial=lambda op, out: True)
 
 
+
+# ---- the command line: -i values (cli/cmdlineparser.cpp) -----------------------------------------------------------
+def py_normalize_ignored(u):
+    """independent statement of what may happen to an -i value on its way to the matcher: quotation marks dropped,
+    native separators converted - nothing else (in particular a leading './' must survive)"""
+    return u.replace(b'"', b"").replace(b"\\", b"/")
+
+
+def py_relative_user(u):
+    q = u.replace(b'"', b"")
+    return q in (b".", b"..") or q[:2] in (b"./", b".\\") or q[:3] in (b"../", b"..\\")
+
+
+CLI_DIRS = [b"gen", b"lib", b"src", b"a"]
+CLI_FILES = [b"a.c", b"b.c", b"gen.c", b"x.cpp", b"m.h", b"n.txt"]
+
+
+def gen_cli_tree(rng, depth=3):
+    out, used = [], set()
+    for _ in range(rng.randrange(2, 6)):
+        isdir = depth > 0 and rng.random() < 0.45
+        nm = rng.choice(CLI_DIRS if isdir else CLI_FILES)
+        if nm in used:
+            continue
+        used.add(nm)
+        out.append(("d", nm, gen_cli_tree(rng, depth - 1)) if isdir else ("f", nm))
+    return out
+
+
+def gen_user_pattern(rng, allp, casedir):
+    """an -i value as a user would write it, derived from the names in the tree"""
+    if allp and rng.random() < 0.9:
+        p, k = rng.choice(allp)
+    else:
+        p, k = rng.choice([(b"gen", "d"), (b"b.c", "f"), (b"lib/gen", "d")])
+    comps = p.split(b"/")
+    v = rng.random()
+    if v < 0.3:
+        pat = comps[-1]
+    elif v < 0.45:
+        pat = b"/".join(comps[-2:])
+    elif v < 0.6:
+        pat = p
+    elif v < 0.75:
+        pat = globify(rng, comps[-1]) if rng.random() < 0.6 else b"/".join(comps[:-1] + [globify(rng, comps[-1])])
+    elif v < 0.85:
+        pat = b"**/" + comps[-1]
+    else:
+        pat = edit1(rng, p, b"abg/.*")
+    pat = pat or b"gen"
+    w = rng.random()
+    if w < 0.35:
+        pat = b"./" + pat
+    elif w < 0.42:
+        pat = b"../" + os.path.basename(casedir) + b"/" + pat
+    elif w < 0.5:
+        pat = casedir + b"/" + pat
+    elif w < 0.55:
+        pat = b"./" + b"/./".join(pat.split(b"/"))
+    if k == "d" and rng.random() < 0.5 or rng.random() < 0.08:
+        pat += b"/"
+    x = rng.random()
+    if x < 0.12:
+        pat = pat.replace(b"/", b"\\")
+    elif x < 0.18:
+        pat = b'"' + pat + b'"'
+    if pat.startswith(b"-"):
+        pat = b"./" + pat
+    return pat
+
+
+def gen_cli_args(rng, n):
+    """argument vectors for the real CmdLineParser: -i values in both spellings, path names, error cases"""
+    out = []
+    pool = [(b"gen", "d"), (b"lib/gen", "d"), (b"lib/gen/b.c", "f"), (b"src/a.c", "f"), (b"a b/x.cpp", "f")]
+    for _ in range(n):
+        args = []
+        for _ in range(rng.choice([1, 1, 2, 3])):
+            v = gen_user_pattern(rng, pool, b"/w/case")
+            r = rng.random()
+            if r < 0.05:
+                v = b""
+            elif r < 0.08:
+                v = b"-" + v
+            if rng.random() < 0.5 and v:
+                args.append(b"-i" + v)
+            else:
+                args += [b"-i", v]
+        r = rng.random()
+        if r < 0.9:
+            args.append(rng.choice([b".", b"src", b"lib\\gen", b'"a b"', b"./x/../src/"]))
+        if rng.random() < 0.1:
+            rng.shuffle(args)
+        out.append(args)
+    return out
+
+
+def check_cli_args(ctx, res, exe, drv, argsets, name):
+    lines = ["cli %d %s" % (len(a), " ".join(hx(x) for x in a)) for a in argsets]
+    impl, model = run_both(ctx, exe, drv, lines)
+    core.correspond(ctx, res, name, lines, impl, model, nontrivial=lambda op, out: out.startswith("S"))
+    bad = 0
+    for args, o in zip(argsets, impl):
+        if not o.startswith("S"):
+            res.count("cli:rejected")
+            continue
+        f = o.split(" ")
+        ni = int(f[1])
+        got = [core.unhx(x) for x in f[2:2 + ni]]
+        # the -i values as written, in order (only well-formed vectors reach here)
+        written, i = [], 0
+        while i < len(args):
+            a = args[i]
+            if a == b"-i":
+                if i + 1 < len(args) and args[i + 1]:
+                    written.append(args[i + 1])
+                i += 2
+            elif a.startswith(b"-i"):
+                written.append(a[2:]); i += 1
+            else:
+                i += 1
+        want = [py_normalize_ignored(u) for u in written]
+        for u, w, g in zip(written, want, got + [None] * len(want)):
+            res.count("cli:value-relative" if py_relative_user(u) else "cli:value-free")
+            if g != w:
+                bad += 1
+                deviation(res, "the -i value %r reaches the matcher as %r (documented: only quotation marks and native separators are "
+                               "normalised, %r); relative-to-cwd anchoring %s" % (L(u), None if g is None else L(g), L(w),
+                                                                                  "LOST" if g is not None and py_relative_user(u) and not py_relative_user(g) else "kept"),
+                          dict(op="cliargs", args=[L(a) for a in args], impl=o), None)
+        if len(got) != len(want):
+            bad += 1
+            deviation(res, "%d -i values written, %d delivered: %r" % (len(want), len(got), [L(a) for a in args]),
+                      dict(op="cliargs", args=[L(a) for a in args], impl=o), None)
+    return bad
+
+
+def make_tree(root, nodes):
+    os.makedirs(root, exist_ok=True)
+    for nd in nodes:
+        p = os.path.join(root, nd[1])
+        if nd[0] == "f":
+            with open(p, "wb") as fh:
+                fh.write(b"int x;\n")
+        else:
+            make_tree(p, nd[2])
+
+
+def gen_cli_case(rng, casedir):
+    top = gen_cli_tree(rng)
+    allp = tree_paths(top)
+    dirs = [p for p, k in allp if k == "d" and b"/" not in p]
+    pats = [gen_user_pattern(rng, allp, casedir) for _ in range(rng.choice([1, 1, 1, 2]))]
+    r = rng.random()
+    if r < 0.6 or not dirs:
+        targets = [b"."]
+    elif r < 0.85:
+        d = rng.choice(dirs)
+        targets = [rng.choice([d, b"./" + d, d + b"/"])]
+    else:
+        targets = sorted(set(rng.sample(dirs, min(2, len(dirs)))))
+    return dict(casedir=casedir, top=top, pats=pats, targets=targets)
+
+
+def cli_case_json(c):
+    def tj(nodes):
+        return [[n[0], L(n[1])] if n[0] == "f" else [n[0], L(n[1]), tj(n[2])] for n in nodes]
+    return dict(pats=[L(p) for p in c["pats"]], targets=[L(t) for t in c["targets"]], top=tj(c["top"]))
+
+
+def cli_case_from_json(j, casedir):
+    def tb(nodes):
+        return [("f", n[1].encode("latin-1")) if n[0] == "f" else ("d", n[1].encode("latin-1"), tb(n[2])) for n in nodes]
+    return dict(casedir=casedir, top=tb(j["top"]), pats=[p.encode("latin-1") for p in j["pats"]], targets=[t.encode("latin-1") for t in j["targets"]])
+
+
+def check_cli_e2e(ctx, res, exe, drv, cases, name, cppcheck=None):
+    """the built cppcheck binary on real trees: `cppcheck -i <u> … <targets>` run inside the tree; the `Checking <file> ...`
+    lines must equal (1) the model's selection (normalisation + lister + simplifyPath) and (2) P_impl: the documented rule
+    applied to the patterns as the user wrote them"""
+    import subprocess
+    binary = cppcheck or ctx.cppcheck
+    real = []
+    for c in cases:
+        make_tree(c["casedir"], c["top"])
+        argv = [binary.encode()] + [x for p in c["pats"] for x in (b"-i", p)] + list(c["targets"])
+        r = subprocess.run(argv, cwd=c["casedir"], stdout=subprocess.PIPE, stderr=subprocess.STDOUT, timeout=300)
+        got = [m.group(1) for m in re.finditer(rb"^Checking (.*) \.\.\.$", r.stdout, re.M)]
+        real.append(got)
+    # model: args -> ignored/pathnames -> listing per path name -> spath
+    argl = ["cli %d %s" % (2 * len(c["pats"]) + len(c["targets"]), " ".join([hx(x) for p in c["pats"] for x in (b"-i", p)] + [hx(t) for t in c["targets"]])) for c in cases]
+    rc, cl, err = run_drv(drv, argl)
+    ls_lines, owner = [], []
+    for k, (c, o) in enumerate(zip(cases, cl)):
+        f = o.split(" ")
+        if f[0] != "S":
+            continue
+        ni = int(f[1]); ign = [core.unhx(x) for x in f[2:2 + ni]]
+        pn = [core.unhx(x) for x in f[3 + ni:]]
+        for t in pn:
+            node = corrected_path(t)
+            node = node[2:] if node.startswith(b"./") else node
+            node = b"" if node == b"." else node
+            lc = dict(casedir=c["casedir"], patharg=t, nodepath=hx(node), base=c["casedir"], ign=ign, extra=[], top=c["top"])
+            ls_lines.append(ls_line(lc)); owner.append(k)
+    rc, lo, err = run_drv(drv, ls_lines) if ls_lines else (0, [], "")
+    model_sel = [[] for _ in cases]
+    for k, o in zip(owner, lo):
+        model_sel[k] += [core.unhx(x.rsplit(":", 1)[0]) for x in o.split(" ")[2:]]
+    flat = [p for sel in model_sel for p in sel]
+    rc, spo, err = run_drv(drv, ["sp " + hx(p) for p in flat]) if flat else (0, [], "")
+    it = iter(spo)
+    model_sel = [[core.unhx(next(it)) for _ in sel] for sel in model_sel]
+    # P_impl: the rule on the user's text
+    qlines, plan = [], []
+    for c in cases:
+        files = []
+        for t in c["targets"]:
+            root = corrected_path(t.replace(b'"', b"").replace(b"\\", b"/"))
+            rel = root[2:] if root.startswith(b"./") else root
+            node = find_node(c["top"], [x for x in rel.split(b"/") if x and x != b"."])
+            if node is None:
+                continue
+
+            def walk(nd, path, chain):
+                if nd[0] == "f":
+                    files.append((root, path, chain))
+                else:
+                    for ch in nd[2]:
+                        walk(ch, path + b"/" + ch[1], chain + [path])
+            walk(node, root, [])
+        qs = set()
+        for root, f, chain in files:
+            qs.add((root, "r")); qs.add((f, "r"))
+            for d in chain:
+                qs.add((d, "d")); qs.add((d, "r"))
+        qs = sorted(qs)
+        plan.append((files, qs))
+        for (p, m) in qs:
+            for u in c["pats"]:
+                qlines.append("uspec %s %s %s %s" % (m, hx(u), hx(p), hx(c["casedir"])))
+    rc, qa, err = run_drv(drv, qlines) if qlines else (0, [], "")
+    qi = 0
+    bad = 0
+    lines_for_cases = []
+    for c, (files, qs), got, msel in zip(cases, plan, real, model_sel):
+        m = {}
+        for q in qs:
+            m[q] = any(qa[qi + j] == "1" for j in range(len(c["pats"]))); qi += len(c["pats"])
+        want = []
+        per_root = {}
+        for root, f, chain in files:
+            ignored = m[(root, "r")] or any(d != root and (m[(d, "d")] or m[(d, "r")]) for d in chain) or (f != root and m[(f, "r")])
+            ext = f[f.rfind(b"."):] if b"." in f else b""
+            acc = f == root or ext in (b".c", b".cpp")
+            if acc and not ignored:
+                per_root.setdefault(root, []).append(f)
+        for t in c["targets"]:
+            root = corrected_path(t.replace(b'"', b"").replace(b"\\", b"/"))
+            want += [x[2:] if x.startswith(b"./") else x for x in sorted(per_root.get(root, []))]
+        desc = "cppcheck %s %s in a tree with %s" % (" ".join("-i " + repr(L(p)) for p in c["pats"]), " ".join(L(t) for t in c["targets"]),
+                                                     sorted(L(p) for p, k in tree_paths(c["top"]) if k == "f"))
+        canon = desc
+        res.case(name + "|" + canon, bool(got) and got != [p for p, k in tree_paths(c["top"]) if k == "f"],
+                 dict(tie=name, op=desc, impl=[L(g) for g in got], model=[L(g) for g in msel]) if len(res.samples) < 12 and len(got) > 1 else None)
+        res.count("clie2e:checked=%d" % min(len(got), 5))
+        res.count("clie2e:relative-pattern" if any(py_relative_user(p) for p in c["pats"]) else "clie2e:free-pattern")
+        lines_for_cases.append((got == msel, desc, got, msel))
+        if got != want:
+            bad += 1
+            deviation(res, "%s: Checking lines %r, documented rule for the patterns as written selects %r" % (desc, [L(g) for g in got], [L(w) for w in want]),
+                      dict(op="clie2e", case=cli_case_json(c), impl=[L(g) for g in got], documented=[L(w) for w in want], model=[L(g) for g in msel]), None)
+    mism = [x for x in lines_for_cases if not x[0]]
+    res.traces_validated += len(cases) - len(mism)
+    res.oblig("correspondence:" + name, not mism, "correspondence",
+              "" if not mism else "%d of %d command lines differ; first: %s impl=%s model=%s" % (len(mism), len(cases), mism[0][1], [L(g) for g in mism[0][2]], [L(g) for g in mism[0][3]]))
+    return bad
+
+
 def load_corpus():
     p = os.path.join(core.VERIF, "corpus", "C31", "cases.json")
     return json.load(open(p)) if os.path.exists(p) else []
@@ -782,6 +1072,8 @@ def run_corpus(ctx, res, exe, drv):
     pi = [(c["syntax"], b_(c["a"]), b_(c["b"])) for c in corpus if c["op"] == "pi"]
     sp = [b_(c["path"]) for c in corpus if c["op"] == "sp"]
     ls = [ls_case_from_json(c["case"], os.path.join(ctx.tmp, "lsc", str(k)).encode()) for k, c in enumerate(corpus) if c["op"] == "ls"]
+    ca = [[b_(a) for a in c["args"]] for c in corpus if c["op"] == "cliargs"]
+    ce = [cli_case_from_json(c["case"], os.path.join(ctx.tmp, "clic", str(k)).encode()) for k, c in enumerate(corpus) if c["op"] == "clie2e"]
     if pm:
         check_pm(ctx, res, exe, drv, pm, "corpus-pathmatch")
     if pi:
@@ -790,6 +1082,10 @@ def run_corpus(ctx, res, exe, drv):
         check_sp(ctx, res, exe, drv, sp, "corpus-simplify")
     if ls:
         check_ls(ctx, res, exe, drv, ls, "corpus-lister")
+    if ca:
+        check_cli_args(ctx, res, exe, drv, ca, "corpus-cli-args")
+    if ce:
+        check_cli_e2e(ctx, res, exe, drv, ce, "corpus-cli-end-to-end")
     # the witness of the remaining known finding must still be SEEN (otherwise the check is broken or the code changed)
     seen = set(v.get("key") for v in res.violations if v.get("key"))
     for c in corpus:
@@ -853,6 +1149,10 @@ def run(ctx, res):
 
     check_misc(ctx, res, exe, drv, rng, 1200 if thorough else 400)
 
+    unclassified += check_cli_args(ctx, res, exe, drv, gen_cli_args(rng, 1500 if thorough else 400), "cli-args")
+    cen = 220 if thorough else 30
+    unclassified += check_cli_e2e(ctx, res, exe, drv, [gen_cli_case(rng, os.path.join(ctx.tmp, "cli", str(k)).encode()) for k in range(cen)], "cli-end-to-end")
+
     lsn = 1200 if thorough else 300
     cases = [gen_ls_case(rng, os.path.join(ctx.tmp, "ls", str(k)).encode()) for k in range(lsn)]
     unclassified += check_ls(ctx, res, exe, drv, cases, "lister")
@@ -899,6 +1199,10 @@ def replay(ctx, res, rp):
         check_sp(ctx, res, exe, drv, [b_(rp["path"])], "replay")
     elif op == "ls":
         check_ls(ctx, res, exe, drv, [ls_case_from_json(rp["case"], os.path.join(ctx.tmp, "lsr").encode())], "replay")
+    elif op == "cliargs":
+        check_cli_args(ctx, res, exe, drv, [[b_(a) for a in rp["args"]]], "replay")
+    elif op == "clie2e":
+        check_cli_e2e(ctx, res, exe, drv, [cli_case_from_json(rp["case"], os.path.join(ctx.tmp, "clir").encode())], "replay")
     else:
         print("replay: nothing to replay in this file (no concrete failing input was recorded)")
         return 0
